@@ -121,7 +121,9 @@ func runC12(c *Ctx) {
 			s := paramOf(fi, 0)
 			ok, why := true, ""
 			loops := findLoops(ps)
-			if len(loops) != 1 || len(loops[0].Phis) != 2 {
+			if len(loops) == 1 && len(loops[0].Phis) == 1 && c12ReverseOneIndex(ps, loops[0], s) {
+				// one index over the first half, the mirror position computed from it: same walk
+			} else if len(loops) != 1 || len(loops[0].Phis) != 2 {
 				ok, why = false, "expected one loop with two induction variables"
 			} else {
 				li := loops[0]
@@ -705,4 +707,68 @@ func c12EndAppend(p *Path, ptr, index, val *Term, multi bool) bool {
 		}
 	}
 	return false
+}
+
+// c12ReverseOneIndex: Reverse written with one index: i runs over exactly the first half (a range over
+// slice[:len/2], or 0 <= i < len/2 counted by one) and each iteration swaps slice[i] with slice[len-1-i], nothing else.
+func c12ReverseOneIndex(ps []*Path, li *LoopInfo, s *Term) bool {
+	ct := counted(li)
+	if ct == nil || ct.Step != 1 || ct.Op != "<" || ct.First == nil {
+		return false
+	}
+	if k, isC := ct.First.IsConst(); !isC || k != 0 {
+		return false
+	}
+	lenS := &Term{Op: "builtin", Sym: "len", Args: []*Term{s}}
+	half := func(t *Term) bool {
+		return t != nil && t.Op == "bin" && t.Sym == "/" && len(t.Args) == 2 && t.Args[0].Key() == lenS.Key() && t.Args[1].IsConst("2")
+	}
+	// the bound: len/2, or the length of slice[:len/2]
+	bd := ct.Bound
+	if bd != nil && bd.Op == "builtin" && bd.Sym == "len" && len(bd.Args) == 1 {
+		if over := bd.Args[0]; over.Op == "slice" && over.Args[0].Key() == s.Key() && (over.Args[1].Op == "none" || over.Args[1].IsConst("0")) {
+			bd = over.Args[2]
+		}
+	}
+	if !half(bd) {
+		return false
+	}
+	it := struct{ idx *Term }{ct.Idx}
+	if len(li.Back) != 1 {
+		return false
+	}
+	p := li.Back[0]
+	var sts []*Event
+	for k := p.LoopAt[li.Hdr]; k < len(p.Events); k++ {
+		e := &p.Events[k]
+		switch {
+		case e.Kind == "store" && e.Addr.Op == "alloc":
+		case e.Kind == "call" && e.Name == "builtin.len":
+		case e.Kind == "store":
+			sts = append(sts, e)
+		default:
+			return false
+		}
+	}
+	if len(sts) != 2 {
+		return false
+	}
+	a, b := sts[0], sts[1]
+	if a.Addr.Op != "iaddr" || b.Addr.Op != "iaddr" || a.Addr.Args[0].Key() != s.Key() || b.Addr.Args[0].Key() != s.Key() {
+		return false
+	}
+	A, B := a.Addr.Args[1], b.Addr.Args[1]
+	// values crossed, both read before either store (the first store's value is a load of the other cell taken at
+	// entry, the second store's value the first cell's entry value)
+	isLoadOf := func(v, idx *Term) bool {
+		return v.Op == "load" && v.Args[0].Op == "iaddr" && v.Args[0].Args[0].Key() == s.Key() && ToPoly(v.Args[0].Args[1]).Equal(ToPoly(idx))
+	}
+	if !isLoadOf(a.Val, B) || !isLoadOf(b.Val, A) {
+		return false
+	}
+	// mirror positions: A + B == len - 1, and one of them is the loop index
+	if !ToPoly(A).Add(ToPoly(B), 1).Equal(ToPoly(lenS).Add(polyConst(1), -1)) {
+		return false
+	}
+	return ToPoly(A).Equal(ToPoly(it.idx)) || ToPoly(B).Equal(ToPoly(it.idx))
 }
